@@ -3004,7 +3004,13 @@ impl Server {
             _ => return Ok(RespFrame::error("ERR invalid decrement format")),
         };
         
-        match self.storage.incr_by(db, key, -decrement) {
+        // -i64::MIN does not exist: DECRBY k -9223372036854775808 must be refused, not negated
+        let increment = match decrement.checked_neg() {
+            Some(n) => n,
+            None => return Ok(RespFrame::error("ERR decrement would overflow")),
+        };
+        
+        match self.storage.incr_by(db, key, increment) {
             Ok(new_value) => Ok(RespFrame::Integer(new_value)),
             Err(e) => Ok(RespFrame::error(e.to_string())),
         }
